@@ -10,7 +10,7 @@ CONSTANTS
   LegacyStartedFirst = FALSE
   LegacyHandleClose = FALSE
   MutUnregBeforeDone = FALSE
-  MutIsClosedInRunHandlers = FALSE
+  MutIsClosedInRunHandlers = TRUE
   MutSkipStoppedWhenClosing = FALSE
   LegacySecondCloseNil = FALSE
 INVARIANTS NoStuck Graceful ErrorOnlyOnTimeout NoPanic RunAfterClose SubClosedAtEnd DroppedNotHandled
